@@ -43,9 +43,19 @@ pub fn show_list<T: std::fmt::Display>(v: &[T]) -> String {
     }
 }
 
-/// position encoded in a result name (`r17` -> 17)
-pub fn name_idx(s: &str) -> usize {
-    s[1..].parse::<usize>().expect("name index")
+/// Result names of a case -> position of the record.
+pub type Names = std::collections::HashMap<String, usize>;
+
+/// Do all operand names of an instruction / derivs line exist?  (Dangling names only occur in
+/// shrunk replays; such a line is answered `bad-ref` and ignored, by the model too.)
+pub fn refs_ok(names: &Names, toks: &[&str], from: usize) -> bool {
+    toks.iter().skip(from).all(|t| {
+        t.contains('=')
+            || t.split(',').all(|piece| {
+                !piece.chars().next().map(|ch| ch.is_ascii_alphabetic()).unwrap_or(false)
+                    || names.contains_key(piece)
+            })
+    })
 }
 
 // ---------------------------------------------------------------------------------------------
@@ -570,13 +580,14 @@ pub fn extend<'x, T: Primitive>(r: Record<'x, T>) -> Rc<T> {
 pub struct CaseG<T: Numeric + Primitive + 'static> {
     // field order matters: records are dropped before the tapes
     pub recs: Vec<Rc<T>>,
+    pub names: Names,
     pub vars: Vec<usize>,
     pub tapes: Vec<TapeBox<T>>,
 }
 
 impl<T: Numeric + Primitive + 'static> CaseG<T> {
     pub fn new(ntapes: usize) -> CaseG<T> {
-        CaseG { recs: vec![], vars: vec![], tapes: (0..ntapes).map(|_| TapeBox::new()).collect() }
+        CaseG { recs: vec![], names: Names::new(), vars: vec![], tapes: (0..ntapes).map(|_| TapeBox::new()).collect() }
     }
 }
 
@@ -592,7 +603,7 @@ where
     for<'a> &'a T: NumericRef<T>,
 {
     let via = opt_arg("via", toks).unwrap_or("");
-    let rec = |s: &str| &c.recs[name_idx(s)];
+    let rec = |s: &str| &c.recs[c.names[s]];
     let r = match toks[0] {
         "const" => {
             let v = T::parse(toks[2]);
@@ -650,7 +661,7 @@ where
 /// The real-function instructions (element type Fp only).
 pub fn real_instr(c: &CaseG<Fp>, toks: &[&str]) -> Option<Result<Rc<Fp>, PanicKind>> {
     let via = opt_arg("via", toks).unwrap_or("");
-    let rec = |s: &str| &c.recs[name_idx(s)];
+    let rec = |s: &str| &c.recs[c.names[s]];
     let r = match toks[0] {
         "const" if via == "pi" => catch(|| <Rc<Fp> as Pi>::pi()),
         "sin" => { let a = rec(toks[2]); catch(|| op2!(via, a, Sin::sin)) }
@@ -672,7 +683,7 @@ where
     for<'a> &'a T: NumericRef<T>,
 {
     let via = opt_arg("via", toks).unwrap_or("vec");
-    let r = &c.recs[name_idx(toks[1])];
+    let r = &c.recs[c.names[toks[1]]];
     let try_ = toks[0] == "tryderivs";
     let d = if try_ {
         match catch(|| r.try_derivatives()) {
@@ -724,6 +735,7 @@ fn finish<T: Numeric + Primitive + El>(c: &mut CaseG<T>, toks: &[&str], r: Resul
             if toks[0] == "var" {
                 c.vars.push(c.recs.len());
             }
+            c.names.insert(toks[1].to_string(), c.recs.len());
             c.recs.push(r);
             s
         }
@@ -752,6 +764,9 @@ impl Runner {
         match &mut self.case {
             Case::None => "bad-op".into(),
             Case::Fp(c) => {
+                if !refs_ok(&c.names, toks, if toks[0].ends_with("derivs") { 1 } else { 2 }) {
+                    return "bad-ref".into();
+                }
                 if toks[0] == "derivs" || toks[0] == "tryderivs" {
                     return derivs_line::<Fp>(c, toks);
                 }
@@ -762,6 +777,9 @@ impl Runner {
                 }
             }
             Case::Rat(c) => {
+                if !refs_ok(&c.names, toks, if toks[0].ends_with("derivs") { 1 } else { 2 }) {
+                    return "bad-ref".into();
+                }
                 if toks[0] == "derivs" || toks[0] == "tryderivs" {
                     return derivs_line::<Rat>(c, toks);
                 }
